@@ -27,4 +27,6 @@ def run(rep, fb, tier):
     _lx.rule_whole_token(rep, fb)
     from ..rules import lints as _lv
     _lv.rule_call_roles(rep, fb)
+    from ..rules import lints2 as _l2
+    _l2.rule_byteswap_width(rep, fb)
     rep.units = fb.units
